@@ -249,4 +249,318 @@ theorem c12_persist_before_apply_send :
   refine ⟨rfl, by decide, by decide, by decide, by decide, by decide, by decide, by decide, by decide, by decide, by decide,
     by decide, by decide, by decide, by decide, rfl, rfl⟩
 
+
+
+/-! acceptor soundness -/
+
+theorem increasing_pairwise (p : Nat) (cmds : List (Nat × Nat)) (h : increasing p cmds = true) :
+    (cmds.map (·.1)).Pairwise (· < ·) ∧ (∀ i ∈ cmds.map (·.1), p < i) ∧
+    (cmds.getLast?.map (·.1)).getD p ≥ p ∧ (∀ i ∈ cmds.map (·.1), i ≤ (cmds.getLast?.map (·.1)).getD p) := by
+  induction cmds generalizing p with
+  | nil => simp
+  | cons c cs ih =>
+    obtain ⟨i, d⟩ := c
+    simp only [increasing, Bool.and_eq_true, decide_eq_true_eq] at h
+    obtain ⟨hp, hr⟩ := h
+    obtain ⟨h1, h2, h3, h4⟩ := ih i hr
+    have hlast : ((((i, d) :: cs).getLast?).map (·.1)).getD p = (cs.getLast?.map (·.1)).getD i := by
+      cases cs with
+      | nil => simp
+      | cons x xs =>
+        rw [List.getLast?_cons_cons]
+        cases hl : (x :: xs).getLast? with
+        | none => simp at hl
+        | some l => simp
+    refine ⟨?_, ?_, ?_, ?_⟩
+    · simp only [List.map_cons, List.pairwise_cons]
+      exact ⟨fun j hj => h2 j hj, h1⟩
+    · intro j hj
+      simp only [List.map_cons, List.mem_cons] at hj
+      rcases hj with rfl | hj
+      · exact hp
+      · have := h2 j hj; omega
+    · rw [hlast]; omega
+    · intro j hj
+      rw [hlast]
+      simp only [List.map_cons, List.mem_cons] at hj
+      rcases hj with rfl | hj
+      · exact h3
+      · exact h4 j hj
+
+/-- what the acceptor's state says about the events seen so far -/
+structure RepOK (r : Rep) (curAsc : List Nat) : Prop where
+  cur : r.cur = curAsc.reverse
+  sorted : curAsc.Pairwise (· < ·)
+  above : ∀ i ∈ curAsc, r.base < i ∧ i ≤ r.pos
+  posGe : r.base ≤ r.pos
+
+def segOK (sg : Nat × List Nat) : Prop := sg.2.Pairwise (· < ·) ∧ ∀ i ∈ sg.2, sg.1 < i
+
+theorem accept_segments (evs : List Ev) (r : Rep) (curAsc : List Nat)
+    (hr : RepOK r curAsc) (h : acceptFrom r evs = true) :
+    ∀ sg ∈ segmentsFrom r.base curAsc evs, segOK sg := by
+  induction evs generalizing r curAsc with
+  | nil =>
+    intro sg hsg
+    simp only [segmentsFrom, List.mem_singleton] at hsg
+    subst hsg
+    exact ⟨hr.sorted, fun i hi => (hr.above i hi).1⟩
+  | cons ev evs ih =>
+    cases ev with
+    | apply cmds chain =>
+      simp only [acceptFrom, Rep.step] at h
+      by_cases hinc : increasing r.pos cmds = true
+      · by_cases hch : chainOf r.chain cmds ≠ chain
+        · simp [hinc, hch] at h
+        · simp only [hinc, Bool.not_true, Bool.false_eq_true, if_false, hch] at h
+          obtain ⟨p1, p2, p3, p4⟩ := increasing_pairwise r.pos cmds hinc
+          have hr' : RepOK { r with pos := (cmds.getLast?.map (·.1)).getD r.pos, chain := chain,
+                                     cur := (cmds.map (·.1)).reverse ++ r.cur } (curAsc ++ cmds.map (·.1)) := by
+            refine ⟨by simp [hr.cur], ?_, ?_, ?_⟩
+            · rw [List.pairwise_append]
+              refine ⟨hr.sorted, p1, ?_⟩
+              intro a ha b hb
+              have := (hr.above a ha).2; have := p2 b hb; omega
+            · intro i hi
+              simp only
+              rcases List.mem_append.1 hi with hi | hi
+              · have := hr.above i hi; omega
+              · have := p2 i hi; have := p4 i hi; have := hr.posGe; omega
+            · simp only; have := hr.posGe; omega
+          intro sg hsg
+          simp only [segmentsFrom] at hsg
+          exact ih _ _ hr' h sg hsg
+      · simp [hinc] at h
+    | snap a c =>
+      simp only [acceptFrom, Rep.step] at h
+      by_cases hc : c ≠ r.chain
+      · simp [hc] at h
+      · simp only [hc, if_false] at h
+        intro sg hsg
+        simp only [segmentsFrom] at hsg
+        exact ih r curAsc hr h sg hsg
+    | restore k c =>
+      simp only [acceptFrom, Rep.step] at h
+      have hr' : RepOK { r with pos := k, chain := c, segs := (r.base, r.cur) :: r.segs, base := k, cur := [] } [] :=
+        ⟨rfl, List.Pairwise.nil, fun i hi => (by cases hi), Nat.le_refl _⟩
+      intro sg hsg
+      simp only [segmentsFrom, List.mem_cons] at hsg
+      rcases hsg with rfl | hsg
+      · exact ⟨hr.sorted, fun i hi => (hr.above i hi).1⟩
+      · exact ih _ [] hr' h sg hsg
+    | restart =>
+      simp only [acceptFrom, Rep.step] at h
+      intro sg hsg
+      simp only [segmentsFrom] at hsg
+      exact ih r curAsc hr h sg hsg
+
+/-- **acceptor soundness, per replica**: a trace the acceptor accepts is, between any two
+    restores, a strictly increasing run of applied indices that starts above the index the
+    run was (re)started from — no command applied twice, none out of order. -/
+theorem c12_acceptor_sound_replica (evs : List Ev) (h : acceptRep evs = true) :
+    ∀ sg ∈ segments evs, sg.2.Pairwise (· < ·) ∧ ∀ i ∈ sg.2, sg.1 < i := by
+  exact accept_segments evs {} [] ⟨rfl, List.Pairwise.nil, fun i hi => (by cases hi), Nat.le_refl _⟩ h
+
+example : acceptRep [.apply [(5, 1), (6, 2)] (chainOf 0 [(5, 1), (6, 2)]), .restart,
+                     .restore 6 77, .apply [(7, 3)] (chainOf 77 [(7, 3)])] = true := by decide
+example : acceptRep [.apply [(5, 1)] (chainOf 0 [(5, 1)]), .apply [(5, 1)] 0] = false := by decide
+
+/-! agreement -/
+
+theorem unionAdd_spec (u u' : List (Nat × Nat)) (p : Nat × Nat)
+    (hu : ∀ a ∈ u, ∀ b ∈ u, a.1 = b.1 → a.2 = b.2) (h : unionAdd u p = some u') :
+    (∀ a ∈ u', ∀ b ∈ u', a.1 = b.1 → a.2 = b.2) ∧ (∀ a ∈ u, a ∈ u') ∧
+    (∃ q ∈ u', q.1 = p.1 ∧ q.2 = p.2) := by
+  unfold unionAdd at h
+  cases hf : u.find? (fun q => q.1 == p.1) with
+  | some q =>
+    rw [hf] at h
+    simp only at h
+    split at h
+    · rename_i heq
+      cases h
+      have hq := List.find?_some hf
+      have hm := List.mem_of_find?_eq_some hf
+      exact ⟨hu, fun a ha => ha, q, hm, by simpa using hq, heq⟩
+    · cases h
+  | none =>
+    rw [hf] at h
+    cases h
+    have hn := List.find?_eq_none.1 hf
+    refine ⟨?_, fun a ha => List.mem_cons_of_mem _ ha, p, List.mem_cons_self .., rfl, rfl⟩
+    intro a ha b hb hab
+    rcases List.mem_cons.1 ha with ha | ha
+    · rcases List.mem_cons.1 hb with hb | hb
+      · rw [ha, hb]
+      · have := hn b hb; simp at this; rw [ha] at hab; exact absurd hab.symm this
+    · rcases List.mem_cons.1 hb with hb | hb
+      · have := hn a ha; simp at this; rw [hb] at hab; exact absurd hab this
+      · exact hu a ha b hb hab
+
+theorem unionAll_spec (u u' : List (Nat × Nat)) (ps : List (Nat × Nat))
+    (hu : ∀ a ∈ u, ∀ b ∈ u, a.1 = b.1 → a.2 = b.2) (h : unionAll u ps = some u') :
+    (∀ a ∈ u', ∀ b ∈ u', a.1 = b.1 → a.2 = b.2) ∧ (∀ a ∈ u, a ∈ u') ∧
+    (∀ p ∈ ps, ∃ q ∈ u', q.1 = p.1 ∧ q.2 = p.2) := by
+  induction ps generalizing u with
+  | nil => simp only [unionAll, Option.some.injEq] at h; subst h; exact ⟨hu, fun a ha => ha, fun p hp => by cases hp⟩
+  | cons p ps ih =>
+    simp only [unionAll] at h
+    cases h1 : unionAdd u p with
+    | none => rw [h1] at h; cases h
+    | some u1 =>
+      rw [h1] at h
+      simp only [Option.bind_some] at h
+      obtain ⟨a1, a2, q, hq, hq1, hq2⟩ := unionAdd_spec u u1 p hu h1
+      obtain ⟨b1, b2, b3⟩ := ih u1 a1 h
+      refine ⟨b1, fun a ha => b2 a (a2 a ha), ?_⟩
+      intro x hx
+      rcases List.mem_cons.1 hx with rfl | hx
+      · exact ⟨q, b2 q hq, hq1, hq2⟩
+      · exact b3 x hx
+
+/-- **acceptor soundness, across replicas**: if the agreement bookkeeping accepts all
+    `(index, proposal id)` pairs applied by all replicas of a slot (in any order, with
+    repetitions after restores), then any two applications of the same index — on the same
+    or on different replicas — applied the same command. -/
+theorem c12_acceptor_sound_agreement (ps : List (Nat × Nat)) (u : List (Nat × Nat))
+    (h : unionAll [] ps = some u) :
+    ∀ p ∈ ps, ∀ q ∈ ps, p.1 = q.1 → p.2 = q.2 := by
+  obtain ⟨h1, _, h3⟩ := unionAll_spec [] u ps (fun a ha => by cases ha) h
+  intro p hp q hq hpq
+  obtain ⟨a, ha, ha1, ha2⟩ := h3 p hp
+  obtain ⟨b, hb, hb1, hb2⟩ := h3 q hq
+  have := h1 a ha b hb (by omega)
+  omega
+
+example : (unionAll [] [(5, 1), (6, 2), (5, 1)]).isSome = true := by decide
+example : unionAll [] [(5, 1), (5, 9)] = none := by decide
+
+/-- **acceptor soundness, gaps**: when `segGaps` finds nothing, every index any replica
+    applied that lies between the run's start and its last applied index was applied in
+    this run too — nothing skipped. -/
+theorem c12_acceptor_sound_no_gap (union : List Nat) (base : Nat) (asc : List Nat) (hi : Nat)
+    (hl : asc.getLast? = some hi) (h : segGaps union base asc = false) :
+    ∀ i ∈ union, base < i → i ≤ hi → i ∈ asc := by
+  intro i hiu hb hh
+  simp only [segGaps, hl, List.any_eq_false, Bool.and_eq_true, decide_eq_true_eq, Bool.not_eq_true',
+    not_and, Bool.not_eq_false] at h
+  have := h i hiu ⟨hb, hh⟩
+  simpa using this
+
+example : segGaps [5, 6, 7] 4 [5, 7] = true := by decide
+
+/-! split clauses of apply_in_order_once -/
+
+/-- **no skip**: whenever a batch `(a, b]` is handed to the state machine, `a` is exactly the
+    state machine's durable applied index — nothing between them is left out — for every
+    schedule with crashes and restarts anywhere. -/
+theorem c12_no_skip (ss : List Step) (a b : Nat) (h : (run {} ss).inflight = some (a, b)) :
+    a = (run {} ss).smPos := ((c12_apply_in_order_once ss).1 a b h).1
+
+/-- **no re-apply**: every index of a batch about to be applied lies strictly above the
+    state machine's durable applied index. -/
+theorem c12_no_reapply (ss : List Step) (a b : Nat) (h : (run {} ss).inflight = some (a, b)) :
+    ∀ i, a < i → i ≤ b → (run {} ss).smPos < i := by
+  intro i hi _
+  have := c12_no_skip ss a b h
+  omega
+
+/-- **order**: an apply step moves the applied index strictly forward, to the end of the
+    delivered batch, which is committed. -/
+theorem c12_apply_moves_forward (ss : List Step) (d' : D) (h : step (run {} ss) .apply = some d') :
+    (run {} ss).smPos < d'.smPos ∧ d'.smPos ≤ d'.commit := by
+  have hinv := inv_run {} inv_init ss
+  simp only [step] at h
+  split at h
+  · rename_i a x b hv hi
+    cases h
+    have := hinv.inflight x b hi
+    have hx := hinv.volPos x this.1
+    exact ⟨by simp only; omega, by simp only; exact this.2.2⟩
+  · cases h
+
+/-- **restart resumes at the applied position** (never before it: no re-apply; never after
+    it: no skip), whatever was in flight when the process died. -/
+theorem c12_restart_resumes_at_applied (ss : List Step) (d' : D) (h : step (run {} ss) .restart = some d') :
+    d'.vol = some d'.smPos ∧ d'.inflight = none := by
+  have hinv := inv_run {} inv_init ss
+  have hinv' := inv_step _ d' .restart hinv h
+  simp only [step] at h
+  split at h
+  · rename_i hv
+    cases h
+    refine ⟨?_, hinv.downIdle hv⟩
+    have := hinv'.volPos
+    simp only at this ⊢
+    exact congrArg some (this _ rfl)
+  · cases h
+
+example : step (run {} [.persist 3, .commitTo 3, .deliver 2, .apply, .crash]) .restart ≠ none := by decide
+
+/-! the term fence of proposal futures -/
+
+structure Fut where
+  pending : List (Nat × Nat × Nat) := []          -- (index, tracked term, future id)
+  resolved : List (Nat × Nat × Nat × Nat) := []   -- (future id, index, tracked term, term of the applied entry)
+deriving Repr, Inhabited
+
+inductive FStep where
+  | track (i t id : Nat)      -- trackReadyEntries: the local proposal `id` got (i, t)
+  | applied (i t : Nat)       -- an entry (i, t) was applied: resolveProposal(i, t, …)
+  | failAll                   -- leadership loss / crash
+deriving Repr
+
+/-- `resolveProposal`: `if !ok || pending.term != term { return }` -/
+def resolveProposal (f : Fut) (i t : Nat) : Fut :=
+  match f.pending.find? (fun p => p.1 == i) with
+  | none => f
+  | some p =>
+    if p.2.1 != t then f
+    else { pending := f.pending.filter (fun q => q.1 != i), resolved := (p.2.2, i, p.2.1, t) :: f.resolved }
+
+def fstep (f : Fut) : FStep → Fut
+  | .track i t id => { f with pending := (i, t, id) :: f.pending.filter (fun q => q.1 != i) }
+  | .applied i t => resolveProposal f i t
+  | .failAll => { f with pending := [] }
+
+def frun (ss : List FStep) : Fut := ss.foldl fstep {}
+
+theorem resolved_fence (f : Fut) (s : FStep) (h : ∀ r ∈ f.resolved, r.2.2.1 = r.2.2.2) :
+    ∀ r ∈ (fstep f s).resolved, r.2.2.1 = r.2.2.2 := by
+  cases s with
+  | track i t id => exact h
+  | failAll => exact h
+  | applied i t =>
+    simp only [fstep, resolveProposal]
+    cases hf : f.pending.find? (fun p => p.1 == i) with
+    | none => exact h
+    | some p =>
+      simp only
+      split
+      · exact h
+      · rename_i hne
+        intro r hr
+        rcases List.mem_cons.1 hr with rfl | hr
+        · simpa using hne
+        · exact h r hr
+
+/-- **future_term_fence**: over every sequence of tracking, applied entries and failures, a
+    proposal future tracked at `(i, t)` is resolved "committed" only by an applied entry of
+    the SAME term `t` (an entry another leader put at `i` never completes it); and the guard
+    this models is the one in the source now. -/
+theorem c12_future_term_fence (ss : List FStep) :
+    (∀ r ∈ (frun ss).resolved, r.2.2.1 = r.2.2.2) ∧
+    Gen.C12.resolveProposalGuard = "!ok || pending.term != term" := by
+  refine ⟨?_, rfl⟩
+  unfold frun
+  suffices ∀ (f : Fut), (∀ r ∈ f.resolved, r.2.2.1 = r.2.2.2) →
+      ∀ r ∈ (ss.foldl fstep f).resolved, r.2.2.1 = r.2.2.2 from this {} (fun r hr => by cases hr)
+  induction ss with
+  | nil => intro f h; exact h
+  | cons s ss ih => intro f h; exact ih (fstep f s) (resolved_fence f s h)
+
+example : (frun [.track 9 2 41, .applied 9 3, .applied 9 2]).resolved = [(41, 9, 2, 2)] := by decide
+example : (frun [.track 9 2 41, .applied 9 3]).resolved = [] := by decide
+
+
 end WK.C12
